@@ -1174,6 +1174,32 @@ fn random_unit(st: &mut Stats, rng: &mut Rng, u: u64) {
     norms_cmplx(st, rng);
     space_case(st, rng);
     space_case(st, rng);
+    exact_quotients(st, rng);
+}
+
+/// scalar division on exactly divisible data with a non-dyadic divisor: x = k*s exactly, so x/s == k exactly in IEEE
+/// arithmetic (a reciprocal-multiply "optimisation" is 1 ulp off, e.g. 49*(1/49) != 1); `/` and `/=` must agree bit for bit
+fn exact_quotients(st: &mut Stats, rng: &mut Rng) {
+    st.next_case();
+    let n = rng.usize(1, 24);
+    let s = *rng.pick(&[3.0, 7.0, 49.0, 10.0, 5.0, 11.0, 6.0, -49.0, 1000.0, 98.0, 41.0]);
+    let k: Vec<f64> = (0..n).map(|_| rng.int(-60, 60) as f64).collect();
+    let x: Vec<f64> = k.iter().map(|v| v * s).collect();
+    let bits = |v: &[f64]| v.iter().map(|t| t.to_bits()).collect::<Vec<_>>();
+    let d = || format!("x={:?} s={}", x, s);
+    st.eval();
+    match catch(|| (mk(&x) / s).vec) { Outcome::Ok(q) => if bits(&q) != bits(&k) && q != k { st.violation("C15:div-scalar:f64:inexact-on-exact-data", format!("v / s = {:?} expected {:?}; {}", q, k, d())); }, o => st.violation("C15:div-scalar:f64:refused", format!("{}; {}", o.describe(), d())) }
+    st.eval();
+    match catch(|| { let mut v = mk(&x); v /= s; v.vec }) { Outcome::Ok(q) => if q != k { st.violation("C15:div-assign-scalar:f64:inexact-on-exact-data", format!("v /= s gives {:?} expected {:?}; {}", q, k, d())); }, o => st.violation("C15:div-assign-scalar:f64:refused", format!("{}; {}", o.describe(), d())) }
+    // complex vector divided by a real-valued complex scalar and by a Gaussian integer w: (z*w)/w == z exactly on small integers
+    let w = Cmplx::new(rng.int(1, 7) as f64, rng.int(-7, 7) as f64);
+    let z: Vec<Cmplx> = (0..n).map(|_| Cmplx::new(rng.int(-9, 9) as f64, rng.int(-9, 9) as f64)).collect();
+    let zw: Vec<Cmplx> = z.iter().map(|t| *t * w).collect();
+    st.eval();
+    match catch(|| (mk(&zw) / w).vec) { Outcome::Ok(q) => if q != z { st.violation("C15:div-scalar:Complex<f64>:inexact-on-exact-data", format!("(z*w)/w = {:?} expected {:?}; w={:?}", q, z, w)); }, o => st.violation("C15:div-scalar:Complex<f64>:refused", o.describe()) }
+    st.eval();
+    match catch(|| { let mut v = mk(&zw); v /= w; v.vec }) { Outcome::Ok(q) => if q != z { st.violation("C15:div-assign-scalar:Complex<f64>:inexact-on-exact-data", format!("v /= w gives {:?} expected {:?}; w={:?}", q, z, w)); }, o => st.violation("C15:div-assign-scalar:Complex<f64>:refused", o.describe()) }
+    st.count("exact-quotient-cases");
 }
 
 pub fn run(ctx: &Ctx) -> Report {
